@@ -45,11 +45,11 @@ def run(ck):
     np.seterr(all="ignore")
     rng = ck.rng
     thorough = ck.tier == "thorough"
-    N = 300 if thorough else 80
+    N = ck.n(80, 300)
 
     # ------------------------------------------------------------------ 1. translator validation (Kelvin, thickness) + tables
     cases, lines, plan = [], [], []
-    for _ in range(60 if thorough else 15):
+    for _ in range(ck.n(15, 60)):
         p, T, rho, M, g = rng.uniform(0.01, 0.995), rng.uniform(60, 320), rng.uniform(0.3, 2), rng.uniform(2, 150), rng.uniform(1, 40)
         if rng.random() < 0.35:
             p = 1 - logu(rng, 1e-7, 1e-2) if rng.random() < 0.6 else logu(rng, 1e-8, 1e-2)      # both ends of (0, 1)
